@@ -22,6 +22,8 @@ mod hll;
 mod cpc;
 #[cfg(feature = "fam_tdigest")]
 mod tdigest;
+#[cfg(feature = "fam_bounds")]
+mod bounds;
 
 pub type Ob = Vec<i128>;
 pub const PANIC: i128 = -999;
@@ -187,6 +189,8 @@ fn main() {
         "cpc" => run_family::<cpc::Fam>(&args[2], &args[3]),
         #[cfg(feature = "fam_tdigest")]
         "tdigest" => run_family::<tdigest::Fam>(&args[2], &args[3]),
+        #[cfg(feature = "fam_bounds")]
+        "bounds" => run_family::<bounds::Fam>(&args[2], &args[3]),
         other => {
             eprintln!("unknown family {other}");
             std::process::exit(2);
